@@ -154,7 +154,10 @@ def _spawn(args, threads, hashseed, timeout=600):
     code = ("import sys, json, traceback; sys.path.insert(0, %r); from checks import c09\n"
             "try:\n    res = c09.child(json.loads(sys.argv[1]))\nexcept BaseException:\n    print(traceback.format_exc()); sys.exit(3)\n"
             "print('\\nRESULT ' + json.dumps(res))") % str(Path(__file__).resolve().parent.parent)
-    p = subprocess.run([sys.executable, "-c", code, json.dumps(args)], env=env, capture_output=True, text=True, timeout=timeout)
+    try:
+        p = subprocess.run([sys.executable, "-c", code, json.dumps(args)], env=env, capture_output=True, text=True, timeout=timeout)
+    except subprocess.TimeoutExpired:
+        return {"error": f"no result within {timeout} s"}
     line = next((l for l in p.stdout.splitlines()[::-1] if l.startswith("RESULT ")), None)
     if p.returncode != 0 or line is None:
         return {"error": f"rc={p.returncode} stdout={p.stdout[-1500:]} stderr={p.stderr[-500:]}"}
@@ -254,9 +257,12 @@ def run(ctx):
                          rng_seed=(None if n % 3 == 0 else 77 + n))
                 jobs.append((label, a, T, 100 + 7 * n))
     with ThreadPoolExecutor(max_workers=5 if ctx.quick else 6) as ex:
-        results = list(ex.map(lambda j: _spawn(j[1], j[2], j[3]), jobs))
+        results = list(ex.map(lambda j: _spawn(j[1], j[2], j[3], timeout=(60 if ctx.violations else 300) if ctx.quick else 600), jobs))
     for j, res in zip(jobs, results):
         if "error" in res:
+            if ctx.violations:       # the model already refuted the kernels: do not let a harness problem hide that verdict
+                ctx.cov["children_failed_after_model_violation"] = res["error"][-300:]
+                return
             raise core.MachineryFailure(f"C09: child process for {j[0]} (threads={j[2]}) failed: {res['error']}")
 
     traces = []
